@@ -27,6 +27,9 @@ TYPES = {
     # payloads that are Default for EVERY T (only with the parameter `tynd`, which has no Default bound)
     "optT": ("Option<T>", "None", "None", "None", None),
     "phT": ("::core::marker::PhantomData<T>", "::core::marker::PhantomData", "::core::marker::PhantomData", "::core::marker::PhantomData", None),
+    # invariant in the lifetime parameter (only with a lifetime parameter): a borrow of the enum is shorter than 'a and cannot be stretched
+    "cellstr": ("::core::cell::Cell<&'a str>", '::core::cell::Cell::new("")', '::core::cell::Cell::new("brw")', '::core::cell::Cell::new("bq")', None),
+    "optboxT": ("Option<Box<T>>", "None", "None", "None", None),              # only with the parameter `tyq`
     "unit": ("()", "()", "()", "()", None),                                   # a zero-sized payload
     "arr2": ("[u8; 2]", "[0u8; 2]", "[1u8, 2u8]", "[3u8, 4u8]", None),
     "tup": ("(u8, bool)", "(0u8, false)", "(1u8, true)", "(2u8, false)", None),
@@ -38,6 +41,8 @@ TYPES = {
                 "Box::new(::core::default::Default::default())", None),
     "mutref": ("&'a mut u8", None, None, None, None),                     # only with a lifetime parameter; values need a place (strgen)
     "char": ("char", "'\\0'", "'q'", "'r'", None),
+    # an inner value of a default variant that is neither Send nor Sync
+    "rcstr": ("::std::rc::Rc<str>", '::std::rc::Rc::<str>::from("")', '::std::rc::Rc::<str>::from("ra")', '::std::rc::Rc::<str>::from("rb")', None),
 }
 # instantiations of generic parameters used by drivers
 GENERICS = {
@@ -54,6 +59,8 @@ GENERICS = {
     "tydbg": dict(decl="<T: ::core::fmt::Debug + Clone + PartialEq>", inst="<DbgOnly>", tparam=None),
     # a parameter WITHOUT a Default bound, instantiated with a type that has none
     "tynd": dict(decl="<T: ::core::fmt::Debug + Clone + PartialEq>", inst="<NoDef>", tparam=None),
+    # a parameter that may be unsized (written inline; only behind Box / PhantomData), instantiated with str
+    "tyq": dict(decl="<T: ?Sized>", inst="<str>", tparam=None),
 }
 
 
@@ -408,7 +415,7 @@ def expected_payload(E, v, honour_default_with=True):
 
 def impl_header(E):
     g = GENERICS[E["generics"]]
-    tg = {"none": "", "ty": "<T>", "tywhere": "<T>", "lt": "<'a>", "const": "<N>", "tyconst": "<T, N>", "tydef": "<T>", "constdef": "<N>", "tydbg": "<T>", "tynd": "<T>"}[E["generics"]]
+    tg = {"none": "", "ty": "<T>", "tywhere": "<T>", "lt": "<'a>", "const": "<N>", "tyconst": "<T, N>", "tydef": "<T>", "constdef": "<N>", "tydbg": "<T>", "tynd": "<T>", "tyq": "<T>"}[E["generics"]]
     return "impl%s %s%s%s" % (g.get("impl_decl", g["decl"]), E["name"], tg, g.get("where", ""))
 
 
@@ -466,7 +473,7 @@ def helper_impl(E):
     n = E["name"]
     decl = g["decl"]
     # type generics without bounds
-    tg = {"none": "", "ty": "<T>", "tywhere": "<T>", "lt": "<'a>", "const": "<N>", "tyconst": "<T, N>", "tydef": "<T>", "constdef": "<N>", "tydbg": "<T>", "tynd": "<T>"}[E["generics"]]
+    tg = {"none": "", "ty": "<T>", "tywhere": "<T>", "lt": "<'a>", "const": "<N>", "tyconst": "<T, N>", "tydef": "<T>", "constdef": "<N>", "tydbg": "<T>", "tynd": "<T>", "tyq": "<T>"}[E["generics"]]
     lines = ["impl%s %s%s%s {" % (g.get("impl_decl", decl), n, tg, g.get("where", ""))]
     lines.append("    pub fn decl_index(&self) -> usize { match self {")
     for i, v in enumerate(E["variants"]):
